@@ -1041,6 +1041,13 @@ func c03GenScn(r *vh.Rng) *c03Scn {
 			}
 		}
 	}
+	if r.Chance(4) {
+		// a client that sends junk: go-smtp hangs up after the fourth protocol error
+		for k := 3 + r.Intn(3); k > 0; k-- {
+			i := r.Intn(len(toks) + 1)
+			toks = append(toks[:i], append([]string{"Z"}, toks[i:]...)...)
+		}
+	}
 	if len(toks) > 18 {
 		toks = toks[:18]
 	}
@@ -1121,6 +1128,54 @@ func c03One(t *testing.T, out *vh.Out, s *c03Scn) {
 		kind := strings.Split(tok, ":")[0]
 		out.Stat("tok." + kind + "." + c03Codes(r))
 	}
+	seenMail := false
+	for _, r := range res {
+		tok := strings.TrimSuffix(r.tok, "~")
+		if strings.HasPrefix(tok, "M:") && len(r.codes) > 0 && r.codes[0] == 250 {
+			seenMail = true
+		}
+		if (tok == "E" || tok == "Eh") && seenMail && len(r.codes) > 0 && r.codes[0] == 250 {
+			out.Stat("ehlo.repeated-after-mail")
+		}
+		if strings.HasSuffix(r.tok, "~") {
+			out.Stat("pipelined-tokens")
+		}
+	}
+	c03Log.Lock()
+	for _, d := range c03Log.Dels {
+		shape := ""
+		for _, e := range d.Evs {
+			switch e.Op {
+			case 'B', 'C', 'A':
+				if e.OK {
+					shape += string(e.Op) + "+"
+				} else {
+					shape += string(e.Op) + "-"
+				}
+			case 'N':
+				if e.OK {
+					shape += "N+"
+				} else {
+					shape += "N-"
+				}
+			}
+		}
+		out.Stat("delivery.calls." + shape)
+	}
+	segs := strings.Split(strings.TrimPrefix(oracle, "O:"), ",")
+	for _, sg := range segs {
+		if sg == "-" || sg == "" {
+			continue
+		}
+		out.Stat(fmt.Sprintf("fanout.size.%d", len(sg)))
+		for i := 1; i < len(sg); i++ {
+			if sg[i] < sg[i-1] {
+				out.Stat("fanout.order-not-ascending")
+				break
+			}
+		}
+	}
+	c03Log.Unlock()
 	out.Stat(fmt.Sprintf("cfg.lmtp=%v.deferred=%v.targets=%d", s.lmtp, s.deferred, s.nT))
 	out.Stat(fmt.Sprintf("deliveries.%d", nd))
 	out.Stat(fmt.Sprintf("panics.%d", panics))
